@@ -148,8 +148,93 @@ Definition same_vheader (a b : vhdr) : res bool :=
 
 Definition headers_ok (p : vhdr -> bool) (hs : list vhdr) : bool := negb (find_not p hs).
 
-(* [mmr] : 0 = proof verifies, 1 = does not verify / library error, 3 = library panic.
-   [rebuild] : oracle for build_prove_request_content{,_from_genesis}: does it return Some? *)
+(* ---- the verification gates, in the order the handler applies them ----
+   [mmr] : 0 = proof verifies, 1 = does not verify / library error, 3 = library panic.
+   Result: inl code = rejected with that status; inr (r, s, l, failed_tau) = every gate passed. *)
+Definition tau_gate (rq : prove_request) (tau : N) (hs : list vhdr) (r s l : N) : res (N + bool) :=
+  if pr_skip_tau rq then Ok (inr false)
+  else if negb (s =? 0) then
+    match nth_error hs (N.to_nat r), nth_error hs (N.to_nat (r + s + l - 1)) with
+    | Some sh, Some eh =>
+        match verify_tau (v_ep sh) (v_ct sh) (v_bd sh) (v_ep eh) (v_ct eh) (v_bd eh) tau with
+        | Ok b => Ok (inr (negb b))
+        | Err _ => Ok (inl E_INVALID_COMPACT_TARGET)
+        | Panic p => Panic p
+        end
+    | _, _ => Panic S_M_INDEX
+    end
+  else Ok (inr false).
+
+Definition td_gate (ps : option prove_state) (tau : N) (msg_last : vhdr) (s : N) : res bool :=
+  if negb (s =? 0) then
+    match ps with
+    | Some old =>
+        let* otd := vtd (ps_last old) in
+        let* ntd := vtd msg_last in
+        match verify_total_difficulty (v_ep (ps_last old)) (v_bd (ps_last old)) otd
+                                      (v_ep msg_last) (v_bd msg_last) ntd tau with
+        | Ok _ => Ok true
+        | Err _ => Ok false
+        | Panic p => Panic p
+        end
+    | None => Ok true
+    end
+  else Ok true.
+
+Definition verify_all (last_n tau : N) (ps : option prove_state) (rq : prove_request)
+                      (msg_last : vhdr) (hs : list vhdr) (mmr : N) : res (N + (N * N * N * bool)) :=
+  match matched last_n (pr_start_number rq) (pr_boundary rq) (pr_difficulties rq) (map mh hs) (v_num msg_last) with
+  | Panic s => Panic s
+  | Err c => Ok (inl c)
+  | Ok (r, s, l) =>
+    if negb (headers_ok v_root_ok hs) then Ok (inl E_INVALID_CHAIN_ROOT) else
+    if negb (headers_ok v_pow_ok hs) then Ok (inl E_INVALID_NONCE) else
+    let* tg := tau_gate rq tau hs r s l in
+    match tg with
+    | inl c => Ok (inl c)
+    | inr failed_tau =>
+      let* c1 := if r =? 0 then Ok true else continuous (firstn (N.to_nat r) hs) in
+      if negb c1 then Ok (inl E_INVALID_PARENT_BLOCK) else
+      let* c2 := continuous (skipn (N.to_nat (r + s)) hs) in
+      if negb c2 then Ok (inl E_INVALID_PARENT_BLOCK) else
+      if negb (v_root_ok msg_last) then Ok (inl E_INVALID_PROOF) else
+      if mmr =? 3 then Panic S_MMR_LIB else
+      if negb (mmr =? 0) then Ok (inl E_INVALID_PROOF) else
+      let* td_ok := td_gate ps tau msg_last s in
+      if negb td_ok then Ok (inl E_INVALID_TOTAL_DIFFICULTY) else
+      Ok (inr (r, s, l, failed_tau))
+    end
+  end.
+
+(* the four branches that assemble the remembered last-N headers; None = rejected (452) *)
+Definition assemble (last_n : N) (ps : option prove_state) (hs : list vhdr) (r s l : N)
+  : res (option (list hkey)) :=
+  let reorg_hs := firstn (N.to_nat r) hs in
+  let new_last := map key_of (skipn (length hs - N.to_nat l) hs) in
+  if l =? last_n then Ok (Some new_last)
+  else if last_n <? l then Ok (Some (skipn (N.to_nat (l - last_n)) new_last))
+  else
+    match ps with
+    | Some old =>
+        let old_l := if r =? 0 then ps_lasts old else map key_of reorg_hs in
+        match old_l with
+        | [] => Ok (Some new_last)
+        | _ => Ok (Some (skip_to_last (last_n - l) old_l ++ new_last))
+        end
+    | None =>
+        if r =? 0 then Ok (Some new_last)
+        else if s =? 0 then
+          match nth_error hs (N.to_nat (r - 1)), nth_error hs (N.to_nat r) with
+          | Some a, Some b =>
+              let* ok := is_parent_of a b in
+              if ok then Ok (Some (skip_to_last (last_n - l) (map key_of reorg_hs) ++ new_last))
+              else Ok None
+          | _, _ => Panic S_SLICE
+          end
+        else Ok None
+    end.
+
+(* [rebuild] : oracle for build_prove_request_content{,_from_genesis}: does it return Some? *)
 Definition execute
   (last_n tau : N) (peer : pstate) (st : store)
   (msg_last : vhdr) (proof_empty : bool) (hs : list vhdr) (mmr : N)
@@ -166,89 +251,19 @@ Definition execute
           else Ok (mkEff C_OK ps None false true st None) (* last state replaced; follow-up request not modelled *)
         else Ok (unchanged C_OK ps (Some rq) st)
       else
-      let bail code := Ok (unchanged code ps (Some rq) st) in
-      match matched last_n (pr_start_number rq) (pr_boundary rq) (pr_difficulties rq) (map mh hs) (v_num msg_last) with
-      | Panic s => Panic s
-      | Err c => bail c
-      | Ok (r, s, l) =>
-        if negb (headers_ok v_root_ok hs) then bail E_INVALID_CHAIN_ROOT else
-        if negb (headers_ok v_pow_ok hs) then bail E_INVALID_NONCE else
-        let tau_res :=
-          if pr_skip_tau rq then Ok false
-          else if negb (s =? 0) then
-            match nth_error hs (N.to_nat r), nth_error hs (N.to_nat (r + s + l - 1)) with
-            | Some sh, Some eh =>
-                match verify_tau (v_ep sh) (v_ct sh) (v_bd sh) (v_ep eh) (v_ct eh) (v_bd eh) tau with
-                | Ok b => Ok (negb b)
-                | Err _ => Err E_INVALID_COMPACT_TARGET
-                | Panic p => Panic p
-                end
-            | _, _ => Panic S_M_INDEX
-            end
-          else Ok false in
-        match tau_res with
-        | Panic p => Panic p
-        | Err c => bail c
-        | Ok failed_tau =>
-          let reorg_hs := firstn (N.to_nat r) hs in
-          let tail_hs := skipn (N.to_nat (r + s)) hs in
-          let* c1 := if r =? 0 then Ok true else continuous reorg_hs in
-          if negb c1 then bail E_INVALID_PARENT_BLOCK else
-          let* c2 := continuous tail_hs in
-          if negb c2 then bail E_INVALID_PARENT_BLOCK else
-          if negb (v_root_ok msg_last) then bail E_INVALID_PROOF else
-          if mmr =? 3 then Panic S_MMR_LIB else
-          if negb (mmr =? 0) then bail E_INVALID_PROOF else
-          let td_res :=
-            if negb (s =? 0) then
-              match ps with
-              | Some old =>
-                  let* otd := vtd (ps_last old) in
-                  let* ntd := vtd msg_last in
-                  match verify_total_difficulty (v_ep (ps_last old)) (v_bd (ps_last old)) otd
-                                                (v_ep msg_last) (v_bd msg_last) ntd tau with
-                  | Ok _ => Ok true
-                  | Err _ => Ok false
-                  | Panic p => Panic p
-                  end
-              | None => Ok true
-              end
-            else Ok true in
-          let* td_ok := td_res in
-          if negb td_ok then bail E_INVALID_TOTAL_DIFFICULTY else
+      let* v := verify_all last_n tau ps rq msg_last hs mmr in
+      match v with
+      | inl code => Ok (unchanged code ps (Some rq) st)
+      | inr (r, s, l, failed_tau) =>
           if failed_tau then
             if rebuild then Ok (mkEff C_RECHECK ps (Some (true, false)) true false st None)
-            else bail C_OK
+            else Ok (unchanged C_OK ps (Some rq) st)
           else
-            let new_last := map key_of (skipn (length hs - N.to_nat l) hs) in
-            let lasts_res : res (option (list hkey)) :=
-              if l =? last_n then Ok (Some new_last)
-              else if last_n <? l then Ok (Some (skipn (N.to_nat (l - last_n)) new_last))
-              else
-                match ps with
-                | Some old =>
-                    let old_l := if r =? 0 then ps_lasts old else map key_of reorg_hs in
-                    match old_l with
-                    | [] => Ok (Some new_last)
-                    | _ => Ok (Some (skip_to_last (last_n - l) old_l ++ new_last))
-                    end
-                | None =>
-                    if r =? 0 then Ok (Some new_last)
-                    else if s =? 0 then
-                      match nth_error hs (N.to_nat (r - 1)), nth_error hs (N.to_nat r) with
-                      | Some a, Some b =>
-                          let* ok := is_parent_of a b in
-                          if ok then Ok (Some (skip_to_last (last_n - l) (map key_of reorg_hs) ++ new_last))
-                          else Ok None
-                      | _, _ => Panic S_SLICE
-                      end
-                    else Ok None
-                end in
-            let* lasts := lasts_res in
+            let* lasts := assemble last_n ps hs r s l in
             match lasts with
-            | None => bail E_INVALID_REORG
+            | None => Ok (unchanged E_INVALID_REORG ps (Some rq) st)
             | Some last_headers =>
-                let new_ps := mkPS (pr_last rq) (map key_of reorg_hs) last_headers in
+                let new_ps := mkPS (pr_last rq) (map key_of (firstn (N.to_nat r) hs)) last_headers in
                 if pr_long_fork rq then Panic S_LONG_FORK else
                 let* cm := commit st new_ps in
                 let '(committed, st', rb) := cm in
@@ -256,8 +271,7 @@ Definition execute
                   Ok (mkEff C_OK (Some new_ps) None false false st' rb)
                 else if rebuild_genesis then
                   Ok (mkEff C_RECHECK ps (Some (false, true)) true false st None)
-                else bail C_OK
+                else Ok (unchanged C_OK ps (Some rq) st)
             end
-        end
       end
   end.
